@@ -21,8 +21,8 @@ def run(ctx):
                 "extensions, siblings); hashtable sizes 0..1000 (8..1024 buckets, collisions); a case is non-trivial if it "
                 "reaches at least one tagged situation (replace, rm-absent-sharing, abandoned traversal, notifier "
                 "add/del errors, FREE events, destroy, ...); distinct by SHA1 of the op lines; "
-                "hashtable: exact comparison with the Lean model + oracle; skiplist and trie: the real code against the python "
-                "dictionary oracle only; ascending key order = strcmp (unsigned char) order for the skiplist and byte-wise "
+                "every implementation listed in STREAMS: exact comparison with its Lean model + python oracle (others: python "
+                "dictionary oracle only); ascending key order = strcmp (unsigned char) order for the skiplist and byte-wise "
                 "SIGNED-char order for the trie (complete, abandoned and prefix traversals); hashtable and skiplist under "
                 "LeakSanitizer, the trie without (trie_destroy leaks its root/valueless nodes and notifier records, D82, "
                 "outside C17)")
